@@ -5,6 +5,7 @@ import (
 	"go/constant"
 	"go/token"
 	"go/types"
+	"sort"
 	"strings"
 
 	"golang.org/x/tools/go/ssa"
@@ -270,6 +271,7 @@ func Rank(w *load.World, c *core.Collector) {
 	rankFlat(w, c)
 	rankText(w, c)
 	weightDefaults(w, c)
+	ownFilter(w, c)
 }
 
 func isParamOrCapture(f *ssa.Function, typeName string) func(ssa.Value) bool {
@@ -789,6 +791,45 @@ func rankFlat(w *load.World, c *core.Collector) {
 			}
 		}
 		checkScore(w, c, g, "flat:score", true, "Distance", []string{"C04", "C06"})
+		// the k best are the k nearest: what keeps, rejects and orders candidates is the
+		// distance. The hybrid score is weight times minus distance, and the weight is the
+		// caller's: zero makes every candidate equal, a negative one reverses the order.
+		byDist, byOther := 0, ""
+		var where ssa.Instruction
+		for _, gg := range append([]*ssa.Function{g}, g.AnonFuncs...) {
+			for _, b := range gg.Blocks {
+				for _, in := range b.Instrs {
+					bo, ok := in.(*ssa.BinOp)
+					if !ok {
+						continue
+					}
+					switch bo.Op {
+					case token.LSS, token.GTR, token.LEQ, token.GEQ:
+					default:
+						continue
+					}
+					for _, side := range []ssa.Value{bo.X, bo.Y} {
+						fld := resultFieldRead(side)
+						switch fld {
+						case "":
+						case "Distance":
+							byDist++
+						default:
+							byOther = fld
+							where = in
+						}
+					}
+				}
+			}
+		}
+		switch {
+		case byOther != "":
+			c.Add("RANK", "flat:ordered-by-distance", core.Violation, w.At(where), "the flat scan keeps or orders candidates by their "+byOther+", not by their distance: with a weight of zero every candidate ties and the first k seen are returned, with a negative weight the farthest are", props...)
+		case byDist == 0:
+			c.Add("RANK", "flat:ordered-by-distance", core.Violation, w.Position(g.Pos()), "the flat scan never compares the distances of stored results: nothing keeps the k nearest or their order", props...)
+		default:
+			c.Add("RANK", "flat:ordered-by-distance", core.OK, w.Position(g.Pos()), "", props...)
+		}
 	}
 	if n < 2 {
 		c.Add("RANK", "anchor:flat-writes", core.Undecided, w.Position(f.Pos()), fmt.Sprintf("found %d result writes in the flat scan, expected 2", n), props...)
@@ -2101,4 +2142,273 @@ func skippableInLoop(in ssa.Instruction) bool {
 		}
 	}
 	return false
+}
+
+// ownFilter: each ranking index is searched with the pre-filter of its own option block. The
+// three blocks can all be present in a decoded query (only the one named by the type is
+// validated), so a filter picked from "whichever block has one" restricts the search with a
+// filter the caller never asked for. Decided: the bitmap handed to an index's Search is the
+// result of the recursive search over the Filter field of the same block type as the options
+// argument — through captured cells, helper parameters (per call site) and helper results.
+func ownFilter(w *load.World, c *core.Collector) {
+	props := []string{"C03", "C04", "C05", "C06"}
+	isBitmap := func(t types.Type) bool { return strings.HasSuffix(t.String(), "roaring64.Bitmap") }
+	isQuery := func(t types.Type) bool { return strings.HasSuffix(t.String(), "models.Query") }
+	type frame struct{ site ssa.CallInstruction }
+	typeSwitched := false
+	var trace func(v ssa.Value, stack []frame, depth int) map[string]bool
+	trace = func(v ssa.Value, stack []frame, depth int) map[string]bool {
+		out := map[string]bool{}
+		if depth > 14 || v == nil {
+			return out
+		}
+		add := func(m map[string]bool) {
+			for k := range m {
+				out[k] = true
+			}
+		}
+		allocStores := func(al *ssa.Alloc) {
+			var visit func(refs []ssa.Instruction)
+			visit = func(refs []ssa.Instruction) {
+				for _, r := range refs {
+					switch s := r.(type) {
+					case *ssa.Store:
+						if s.Addr == ssa.Value(al) {
+							add(trace(s.Val, stack, depth+1))
+						}
+					case *ssa.MakeClosure:
+						// stores made inside closures that capture the cell
+						for i, b := range s.Bindings {
+							if b == ssa.Value(al) {
+								fv := s.Fn.(*ssa.Function).FreeVars[i]
+								for _, rr := range *fv.Referrers() {
+									if st, ok := rr.(*ssa.Store); ok && st.Addr == ssa.Value(fv) {
+										add(trace(st.Val, nil, depth+1))
+									}
+								}
+							}
+						}
+					}
+				}
+			}
+			visit(*al.Referrers())
+		}
+		switch x := v.(type) {
+		case *ssa.UnOp:
+			if x.Op != token.MUL {
+				return out
+			}
+			switch a := x.X.(type) {
+			case *ssa.FieldAddr:
+				if st := ssax.StructOf(a.X.Type()); st != nil && st.Field(a.Field).Name() == "Filter" {
+					out[ssax.TypeName(a.X.Type())] = true
+					if fn := a.Parent(); fn != nil && switchesOnType(fn) {
+						typeSwitched = true
+					}
+					return out
+				}
+				add(trace(a.X, stack, depth+1))
+			case *ssa.Alloc:
+				allocStores(a)
+			case *ssa.FreeVar:
+				fn := a.Parent()
+				if p := fn.Parent(); p != nil {
+					for i, fv := range fn.FreeVars {
+						if fv != a {
+							continue
+						}
+						for _, b := range p.Blocks {
+							for _, in := range b.Instrs {
+								if mc, ok := in.(*ssa.MakeClosure); ok && mc.Fn == ssa.Value(fn) && i < len(mc.Bindings) {
+									if al, ok := mc.Bindings[i].(*ssa.Alloc); ok {
+										allocStores(al)
+									} else {
+										add(trace(mc.Bindings[i], nil, depth+1))
+									}
+								}
+							}
+						}
+					}
+				}
+			default:
+				add(trace(x.X, stack, depth+1))
+			}
+		case *ssa.Phi:
+			for _, e := range x.Edges {
+				add(trace(e, stack, depth+1))
+			}
+		case *ssa.Extract:
+			add(trace(x.Tuple, stack, depth+1))
+		case *ssa.ChangeType:
+			add(trace(x.X, stack, depth+1))
+		case *ssa.MakeInterface:
+			add(trace(x.X, stack, depth+1))
+		case *ssa.Parameter:
+			fn := x.Parent()
+			idx := -1
+			for i, q := range fn.Params {
+				if q == x {
+					idx = i
+				}
+			}
+			if idx < 0 {
+				return out
+			}
+			if len(stack) > 0 {
+				site := stack[len(stack)-1].site
+				if site.Common().StaticCallee() == fn && idx < len(site.Common().Args) {
+					add(trace(site.Common().Args[idx], stack[:len(stack)-1], depth+1))
+					return out
+				}
+			}
+			for _, site := range staticCallSites(w, fn) {
+				if idx < len(site.Common().Args) {
+					add(trace(site.Common().Args[idx], nil, depth+1))
+				}
+			}
+		case *ssa.Call:
+			g := x.Call.StaticCallee()
+			if g == nil || !ssax.InModule(g) {
+				return out
+			}
+			// the recursive search over a query: whose Filter is the query
+			if g.Signature.Results().Len() >= 1 && isBitmap(g.Signature.Results().At(0).Type()) {
+				for i, a := range x.Call.Args {
+					if isQuery(a.Type()) && i < len(g.Params) && g.Name() == "Search" {
+						add(trace(a, stack, depth+1))
+						return out
+					}
+				}
+				// a helper that computes the filter: its results
+				for _, b := range g.Blocks {
+					if ret, ok := b.Instrs[len(b.Instrs)-1].(*ssa.Return); ok && len(ret.Results) > 0 {
+						add(trace(ret.Results[0], append(append([]frame{}, stack...), frame{x}), depth+1))
+					}
+				}
+			}
+		}
+		return out
+	}
+	n := 0
+	for _, f := range w.Fns {
+		if load.PkgPath(f) != load.Mod+"/shard/index" {
+			continue
+		}
+		for _, b := range f.Blocks {
+			for _, in := range b.Instrs {
+				call, ok := in.(*ssa.Call)
+				if !ok {
+					continue
+				}
+				g := call.Call.StaticCallee()
+				if g == nil || g.Name() != "Search" || !strings.HasPrefix(load.PkgPath(g), load.Mod+"/shard/index/") {
+					continue
+				}
+				var opts, flt ssa.Value
+				for _, a := range call.Call.Args[1:] {
+					tn := ssax.TypeName(a.Type())
+					if strings.HasPrefix(tn, "models.Search") && strings.HasSuffix(tn, "Options") {
+						opts = a
+					}
+					if isBitmap(a.Type()) {
+						flt = a
+					}
+				}
+				if opts == nil || flt == nil {
+					continue
+				}
+				if st := ssax.StructOf(opts.Type()); st == nil || !hasField(st, "Filter") {
+					continue
+				}
+				n++
+				own := ssax.TypeName(opts.Type())
+				key := "own-filter:" + strings.TrimPrefix(load.PkgPath(g), load.Mod+"/shard/index/")
+				switch {
+				case strings.HasSuffix(key, ":vamana"):
+					props = []string{"C03"}
+				case strings.HasSuffix(key, ":flat"):
+					props = []string{"C04"}
+				case strings.HasSuffix(key, ":text"):
+					props = []string{"C05"}
+				}
+				typeSwitched = false
+				got := trace(flt, nil, 0)
+				var others []string
+				for k := range got {
+					if k != own {
+						others = append(others, k)
+					}
+				}
+				sort.Strings(others)
+				switch {
+				case len(got) == 0:
+					c.Add("RANK", key, core.Undecided, w.At(call), "cannot trace the filter given to the "+own+" search back to a Filter field", props...)
+				case !got[own]:
+					c.Add("RANK", key, core.Violation, w.At(call), "the search with "+own+" is restricted by the filter of "+strings.Join(others, ", ")+", never by its own", props...)
+				case len(others) > 0 && !typeSwitched:
+					c.Add("RANK", key, core.Violation, w.At(call), "the filter given to the search with "+own+" can be the Filter of "+strings.Join(others, ", ")+": a query that carries a filter in another option block is restricted by a filter it did not ask for", props...)
+				default:
+					c.Add("RANK", key, core.OK, w.At(call), "", props...)
+				}
+			}
+		}
+	}
+	if n < 3 {
+		c.Add("RANK", "anchor:own-filter", core.Undecided, "", fmt.Sprintf("found %d ranking index searches with a filter argument, expected 3", n), props...)
+	}
+}
+
+func hasField(st *types.Struct, name string) bool {
+	for i := 0; i < st.NumFields(); i++ {
+		if st.Field(i).Name() == name {
+			return true
+		}
+	}
+	return false
+}
+
+// switchesOnType: the function compares a field called Type with string constants
+func switchesOnType(f *ssa.Function) bool {
+	for _, b := range f.Blocks {
+		for _, in := range b.Instrs {
+			bo, ok := in.(*ssa.BinOp)
+			if !ok || bo.Op != token.EQL {
+				continue
+			}
+			for _, side := range []ssa.Value{bo.X, bo.Y} {
+				if u, ok := side.(*ssa.UnOp); ok {
+					if fa, ok := u.X.(*ssa.FieldAddr); ok {
+						if st := ssax.StructOf(fa.X.Type()); st != nil && st.Field(fa.Field).Name() == "Type" {
+							return true
+						}
+					}
+				}
+				if fl, ok := side.(*ssa.Field); ok {
+					if st := ssax.StructOf(fl.X.Type()); st != nil && st.Field(fl.Field).Name() == "Type" {
+						return true
+					}
+				}
+			}
+		}
+	}
+	return false
+}
+
+// resultFieldRead: the value is read from a field of a stored search result (through the
+// Distance pointer too); which field
+func resultFieldRead(v ssa.Value) string {
+	for i := 0; i < 4; i++ {
+		u, ok := v.(*ssa.UnOp)
+		if !ok || u.Op != token.MUL {
+			return ""
+		}
+		if fa, ok := u.X.(*ssa.FieldAddr); ok {
+			if strings.HasSuffix(ssax.TypeName(fa.X.Type()), "SearchResult") {
+				return ssax.StructOf(fa.X.Type()).Field(fa.Field).Name()
+			}
+			return ""
+		}
+		v = u.X
+	}
+	return ""
 }
